@@ -29,8 +29,17 @@ Checked(s, a) == \E k \in 1..Len(a) : s.kindof[a[k]] = "check" /\ k > LastRewrit
 (* step: returns [s, bad] *)
 Step(s0, e) ==
   IF e.ev = "call_begin" THEN
+     \* Elaborator.elaborate, before its first pass: modules that an earlier run left part-way (in some pass's `done`, never marked elaborated) are
+     \* still editable; their `done` marks in the caches of this call's passes are dropped, so that they are elaborated - and checked - from the
+     \* start again.  Nothing is dropped while another elaboration is in progress (something pending in one of those caches).
+     LET cs == Range(e.caches)
+         idle == \A c \in cs : Get(s0.pending, c) = {}
+         unfinished == ((UNION {Get(s0.done, c) : c \in cs}) \ s0.marked) \ UNION {Get(s0.failedm, c) : c \in cs}   \* (not those a pass failed on)
+         done1 == IF idle THEN [c \in DOMAIN s0.done |-> IF c \in cs THEN s0.done[c] \ unfinished ELSE s0.done[c]] ELSE s0.done
+         applied1 == IF idle THEN [m \in DOMAIN s0.applied |-> IF m \in unfinished THEN <<>> ELSE s0.applied[m]] ELSE s0.applied
+     IN
      [s |-> [s0 EXCEPT !.stack = <<>>, !.i = 1, !.t = 1, !.tops = e.tops, !.children = e.children, !.np = e.np, !.kindof = e.kindof,
-                       !.active = TRUE, !.failed = FALSE, !.strict = e.strict],
+                       !.active = TRUE, !.failed = FALSE, !.strict = e.strict, !.done = done1, !.applied = applied1],
       bad |-> IF s0.active THEN "nested_call" ELSE ""]
   ELSE IF e.ev = "call_end" THEN
      LET s == Adv(s0)
@@ -43,7 +52,8 @@ Step(s0, e) ==
          \* after a failed call, too, nothing may stay pending (C08)
          
   ELSE
-     LET s    == Adv(s0)
+     \* (the module's own _elaborated flag is logged with every hook event: a module that carries it counts as marked, however it came by it)
+     LET s    == LET a == Adv(s0) IN [a EXCEPT !.marked = IF e.elab THEN @ \cup {e.mod} ELSE @]
          top  == IF s.stack = <<>> THEN [m |-> "", todo |-> <<>>, applying |-> FALSE] ELSE s.stack[Len(s.stack)]
          free == top.applying                      \* inside elaborate_module (array flattening re-visits its targets)
          target == IF s.stack = <<>> THEN (IF s.t <= Len(s.tops) THEN s.tops[s.t] ELSE "")
@@ -102,6 +112,7 @@ Step(s0, e) ==
                    bad |-> IF s.stack = <<>> \/ top.m # e.mod THEN "exit_not_top_frame"
                            \* (strict: one fixed pass list throughout the trace; traces that switch elaborators skip the position monitors)
                            ELSE IF s.strict /\ a1[Len(a1)] # Len(a1) THEN "pass_skipped_or_repeated"       \* AppliedInOrder
+                           ELSE IF ismark /\ ~e.elab THEN "mark_pass_left_module_unmarked"
                            ELSE IF s.strict /\ ismark /\ Len(a1) # s.np THEN "marked_incomplete"
                            ELSE IF s.strict /\ ismark /\ ~Checked(s, a1) THEN "not_checked_after_flattening"
                            ELSE IF \E k \in DOMAIN GetS(s.children, e.mod) : s.strict /\ Len(GetS(s.applied, s.children[e.mod][k])) < Len(a1) THEN "parent_before_child"
